@@ -271,6 +271,10 @@ def install_points(which="stop"):
     mods = sk.load_node()
     N = mods["node"].Node
     sched.clear()
+    if which == "dpr":
+        P = mods["peer"].PeerConnection
+        return sched.install({P.reset_last_dwr: None, N.send_dwr: r"send_message|reset_last_dwr", N.receive_dpr: None,
+                              N._check_timers: r"send_dwr|PEER_READY_STATES"})
     if which == "start":
         # start() against the I/O loop it has just started: the loop's walk over its socket table, and the table insertions
         return sched.install({N.start: r"_connect_to_peer|for peer",
@@ -329,6 +333,65 @@ def stop_race(decisions, force):
         w.close()
 
 
+def dpr_vs_watchdog(decisions):
+    """The peer's DPR arrives in the very I/O-loop turn in which the idle timer makes the node send a DWR on that
+    connection.  One schedule: the DPR gets its 2001 DPA and the connection is not offered for routing afterwards -
+    also after the DWA of the watchdog exchange has come in."""
+    from dv import sched
+    from diameter.message.commands import CreditControlRequest
+    w = W.NodeWorld({"peers": [{"name": "peer1.example", "ip": ["10.1.1.1"]}],
+                     "apps": [{"app_id": 4, "auth": True, "peers": [0], "handler": "answer"}],
+                     "node_timers": {"idle": 2, "dwa": 10, "cer": 30, "cea": 30, "wakeup": 1}})
+    try:
+        NotRoutable = w.mods["node"].NotRoutable
+        w.start()
+        c = w.handshake_in("peer1.example", auth=[4], ip="10.1.1.1", hbh=0x100)
+        t0 = w.k.now
+        io = [t for t in w.k.threads if "_handle_connections" in t.name][0]
+        while io.deadline is not None and int(io.deadline) - int(t0) <= 2:
+            w.k.advance(io.deadline - w.k.now)           # turns in which the connection is not yet idle
+            if [f for f in c.refresh() if f.is_request and f.code == 280]:
+                return [], [("setup", "the DWR went out before the turn under exploration")], 0
+        due = io.deadline
+        ex = sched.Explorer(decisions)
+        sched.attach(w.k, ex)
+
+        def feeder():
+            w.k.block(lambda: False, timeout=50)
+            w.feed_msg(c, {"k": "DPR", "host": "peer1.example", "hbh": 0x180, "e2e": 0x180}, run=False)
+        w.k.spawn(feeder, name="feeder")
+        w.k.run()
+        [t for t in w.k.threads if t.name == "feeder"][0].deadline = due
+        ex.armed = True
+        w.k.advance(due - w.k.now)
+        ex.armed = False
+        w.k.run()
+        problems = []
+        out = c.refresh()
+        dpas = [f for f in out if f.code == 282 and not f.is_request]
+        if len(dpas) != 1 or dpas[0].result_code() != 2001:
+            problems.append(("dpa", f"the DPR was answered with {[f.brief() for f in dpas]}"))
+        dwrs = [f for f in out if f.code == 280 and f.is_request]
+        for f in dwrs:                                      # the peer answers the watchdog request it was sent
+            w.feed_msg(c, {"k": "DWA", "host": "peer1.example", "hbh": f.h["hbh"], "e2e": f.h["e2e"]})
+        n0 = len(c.refresh())
+        m = CreditControlRequest()
+        m.session_id, m.origin_host, m.origin_realm = "n;1", W.NODE_HOST.encode(), W.NODE_REALM.encode()
+        m.destination_realm, m.service_context_id = W.NODE_REALM.encode(), "x"
+        m.cc_request_type, m.cc_request_number = 1, 0
+        call = w.app_call(lambda: w.apps[0].send_request(m, timeout=1), name="probe")
+        w.advance(2)
+        sent = [f for f in c.refresh()[n0:] if f.is_request and f.code == 272]
+        if sent or not isinstance(call["box"]["exc"], NotRoutable):
+            problems.append(("still-routable", f"after DPR/DPA ({len(dwrs)} DWR sent in the same turn) a request was "
+                             f"{'written to the peer' if sent else 'accepted'}: outcome {call['box']['exc']!r}"))
+        for sig, d in W.monitor_threads(w):
+            problems.append((f"thread-died/{sig}", d))
+        return ex.trace, problems, len(dwrs)
+    finally:
+        w.close()
+
+
 def start_race(decisions, npeers=2):
     """Node.start() starts the connection thread and then dials the persistent peers from the caller's thread.
     One schedule; every persistent peer must have been dialled and sent its CER, and no thread may have died."""
@@ -382,6 +445,26 @@ def schedule_part(rec, shard, nshards, thorough):
             rec.case(fp("start", npeers, tuple(sorted(dec.items()))) if dec else None,
                      ["start-race-schedule", f"deviations:{len(dec)}"], sample=lambda: dict(case, choice_points=len(trace)))
         rec.extra["start_race_schedules"] = rec.extra.get("start_race_schedules", 0) + ns
+    info = install_points("dpr")
+    if shard == 0:
+        rec.extra["preemption_functions_dpr"] = info
+    holder_d = {}
+
+    def run_dpr(dec):
+        out = dpr_vs_watchdog(dec)
+        holder_d["last"] = out[1]
+        holder_d["dwrs"] = out[2] if len(out) > 2 else 0
+        return out[0]
+    nd = 0
+    for dec, trace in sched.enumerate_schedules(run_dpr, 3 if thorough else 2, shard, nshards):
+        case = {"dpr_vs_watchdog": True, "schedule": {str(i): c for i, c in sorted(dec.items())}}
+        for kind, detail in holder_d["last"]:
+            rec.violation(f"C12/dpr-vs-watchdog/{kind}", case, detail)
+        nd += 1
+        rec.case(fp("dprwd", tuple(sorted(dec.items()))) if dec else None,
+                 ["dpr-vs-watchdog-schedule", f"dpr-vs-watchdog:dwr-sent:{holder_d['dwrs']}", f"deviations:{len(dec)}"],
+                 sample=lambda: dict(case, choice_points=len(trace)))
+    rec.extra["dpr_vs_watchdog_schedules"] = rec.extra.get("dpr_vs_watchdog_schedules", 0) + nd
     info = install_points()
     if shard == 0:
         rec.extra["preemption_functions"] = info
@@ -535,13 +618,23 @@ def run(tier, scale=1.0):
     rec = Recorder(PID)
     for d in hyp.pool_run(shard_main, (tier, scale)):
         rec.merge(d)
-    required = {"start-race-schedule": 1, "other-peer-busy": 1, "second-connection-by-the-peer": 1, "identity:respelled": 1, "stop-race-schedule": 1, "persistent:True": 1, "persistent:False": 1, "always:True": 1, "addr:False": 1, "losses:2": 1,
+    required = {"dpr-vs-watchdog-schedule": 1, "dpr-vs-watchdog:dwr-sent:1": 1, "start-race-schedule": 1, "other-peer-busy": 1, "second-connection-by-the-peer": 1, "identity:respelled": 1, "stop-race-schedule": 1, "persistent:True": 1, "persistent:False": 1, "always:True": 1, "addr:False": 1, "losses:2": 1,
                 "dpr-on-ready": 1, "dwa-event": 1, "dwr-outstanding-at-dpr": 1, "reason-dpr": 1, "dials:3": 1, "loss:sync-refused": 1, "loss:cea-timeout": 1}
     return finish(rec, tier=tier, level="exploration", rule=RULE, assumptions=ASSUME, t0=t0,
                   required_classes=required)
 
 
 def replay(doc):
+    if doc["case"].get("dpr_vs_watchdog"):
+        install_points("dpr")
+        problems = dpr_vs_watchdog({int(i): c for i, c in doc["case"]["schedule"].items()})[1]
+        sigs = [f"C12/dpr-vs-watchdog/{k}" for k, _ in problems]
+        if doc["signature"] in sigs:
+            print(f"  replayed: {problems[0][1][:300]}")
+            print(f"VIOLATION property={PID} replay=(replay)")
+            return 1
+        print(f"[{PID}] replay: signature {doc['signature']} does not reproduce (got {sigs})")
+        return 0
     if doc["case"].get("start_race"):
         install_points("start")
         _, problems = start_race({int(i): c for i, c in doc["case"]["schedule"].items()}, doc["case"]["start_race"])
